@@ -274,6 +274,28 @@ def run_function_level(m, scratch, rng, rep, n_seq):
                     pass
                 if tr.execs() or raised != "RuntimeError":
                     rep.violation("C19:null-runner-executed", "null runner: %d bodies executed, call raised %r" % (len(tr.execs()), raised), {"spec": sp})
+        # a function of a null-runner cluster called from INSIDE a running memento function of a local-runner cluster: its
+        # body does not run there either (the nested call goes to its own cluster's runner)
+        fnlib.set_env(m, root, {"fc": (MemoryStorageBackend(), None), "fc2": (MemoryStorageBackend(), NullRunnerBackend())})
+        inner = {"id": 9990, "own": [["a", {"k": "int", "v": 1}]], "parent": None, "ondisk": False, "cl": 1}
+        outer = {"id": 9991, "own": [["b", {"k": "int", "v": 2}]], "parent": inner, "ondisk": False}
+        for how in ("call", "force_local", "batch"):
+            tr.clear()
+            total += 1
+            try:
+                if how == "call":
+                    fnmod.pnode(outer)
+                elif how == "force_local":
+                    fnmod.pnode.force_local()(outer)
+                else:
+                    fnmod.pnode.call_batch([{"spec": outer}], raise_first_exception=True)
+                raised = None
+            except Exception as e:
+                raised = type(e).__name__
+            ran_inner = [e for e in tr.execs() if e[1] == "pnode" and e[2] == inner["id"]]
+            if ran_inner:
+                rep.violation("C19:null-runner-executed:nested", "a function of a null-runner cluster, called from inside a memento function of a local-runner cluster (outer invoked by %s): its body ran %d times (outer call raised %r)"
+                              % (how, len(ran_inner), raised), {"outer": outer, "inner (null-runner cluster)": inner})
         # null runner over a store that already holds mementos: intact, and with the result data lost (separate metadata path,
         # data directory removed) -- whatever the call does, no body may run
         import shutil
